@@ -2389,7 +2389,10 @@ class GtkDocCommentBlockWriter(object):
             lines = []
 
             # Identifier part
-            if block.name.startswith('SECTION') or block.name.startswith('ACTION'):
+            if block.name.startswith('ACTION:'):
+                # 'ACTION:Class:group.action' is written the way it is parsed: 'Class|group.action'
+                lines.append(block.name[len('ACTION:'):].replace(':', '|', 1))
+            elif block.name.startswith('SECTION'):
                 lines.append(block.name)
             else:
                 if block.annotations:
